@@ -15,6 +15,9 @@
 package internal
 
 import (
+	"bytes"
+	"fmt"
+	"io"
 	"maps"
 	"net/http"
 	"slices"
@@ -65,7 +68,22 @@ func (r *responseStorer) StoreResponse(
 	refIndex int,
 ) error {
 	// Remove hop-by-hop headers as per RFC 9111 §3.1
+	hopByHop := hopByHopHeaders(resp.Header)
 	removeHopByHopHeaders(resp)
+	// ... and hop-by-hop trailer fields (RFC 9110 §7.6.1: "header or trailer
+	// field(s)"). The trailer section arrives with the end of the body, which
+	// is read here instead of a moment later, when the response is serialised.
+	if resp.Body != nil && resp.Body != http.NoBody {
+		body, err := io.ReadAll(resp.Body)
+		_ = resp.Body.Close()
+		if err != nil {
+			return fmt.Errorf("failed to read response body: %w", err)
+		}
+		resp.Body = io.NopCloser(bytes.NewReader(body))
+		for name := range hopByHop {
+			delete(resp.Trailer, name)
+		}
+	}
 
 	// All Vary field lines count (RFC 9110 §5.3): a field nominated on a second
 	// line selects the response just as one on the first line.
